@@ -42,6 +42,8 @@ CHECKS = {
     "C03": [("R-ABI.c03", "r_abi", "run_c03", ("quick", "thorough")),
             ("R-ALIAS.c03", "r_alias", "run_c03", ("quick", "thorough")),
             ("R-NORM.c03", "r_norm", "run_c03", ("quick", "thorough"))],
+    "C13": [("R-MPFZERO", "r_mpfzero", "run", ("quick", "thorough")),
+            ("R-EXTENT.c13", "r_alias", "run_c13", ("quick", "thorough"))],
     "C14": [("R-PURE", "r_assert", "run_pure", ("quick", "thorough")),
             ("R-CONSTASSERT", "r_assert", "run_constassert", ("quick", "thorough")),
             ("R-TMP.modes", "r_tmp", "run_modes", ("quick", "thorough")),
@@ -82,12 +84,20 @@ RULES = {
     "R-ALLOC.blockmove": ("r_alloc", "run_blockmove"),
     "R-ABI.state": ("r_abi", "run_state"),
     "R-BUFGROW": ("r_alloc", "run_bufgrow"),
+    "R-MPFZERO": ("r_mpfzero", "run"),
+    "R-EXTENT.c13": ("r_alias", "run_c13"),
     "R-ABI.c03": ("r_abi", "run_c03"),
     "R-ALIAS.c03": ("r_alias", "run_c03"),
     "R-NORM.c03": ("r_norm", "run_c03"),
 }
 
 EXPLANATION = {
+    "C13": "Decides two of the format rules in the property's last clause, not the accuracy of any result.  (1) R-MPFZERO ('zero has exponent "
+           "0'): must-dataflow over every function that stores the literal 0 into the size of an mpf object it was given - on every path to "
+           "every exit the exponent is stored 0 as well (19 zero-result exits in mpf/, all paired).  (2) R-EXTENT.c13 ('at most prec+1 limbs'): "
+           "aliasflow's extent clause with the struct invariant 'the block of an mpf holds prec+1 limbs': no write into a destination beyond "
+           "that, no size stored that exceeds it, three-valued (refuted only on a provable excess), findings kept in the files the property "
+           "is anchored in.  Error bounds, exactness, 'top limb non-zero' and digit accuracy are values and are not decided.",
     "C03": "Decides three structural clauses of the property, not the limb arithmetic.  (1) R-ABI.c03: abstract interpretation of the machine code "
            "of every assembly implementation (all 94 files under mpn/x86_64/** in both tiers) of add_n, sub_n, add_err1/2_n, sub_err1/2_n, lshift, "
            "rshift, copyi, copyd, com_n, addadd_n, addsub_n, subadd_n, sumdiff_n, nsumdiff_n: on every path through the unrolled loops and "
@@ -176,6 +186,9 @@ EXPLANATION = {
 }
 
 ASSUMPTIONS = {
+    "R-MPFZERO": ["only literal zero stores are judged (sizes computed at run time are outside the rule)", "local aliases of the object parameter are "
+                  "followed flow-insensitively; objects reached through other pointers are not"],
+    "R-EXTENT.c13": ["aliasflow R-EXTENT over the whole mpz/mpq/mpf layer; findings kept only in the files C13 is anchored in"],
     "R-ABI.c03": ["same abstract machine and assumptions as R-ABI; the kernel set is chosen by file name (the library's one-routine-per-file convention)"],
     "R-ALIAS.c03": ["aliasflow (R-STALE, R-CLOBBER) over the whole mpz/mpq/mpf layer; findings kept only in the files C03 is anchored in"],
     "R-NORM.c03": ["R-NORM over the whole tree; findings kept only in the files C03 is anchored in"],
